@@ -180,6 +180,21 @@ fn check_pair(run: &Run, t: &mut Tally, ps: &str, p: &Pattern, a: &str, b: &str)
     }
 }
 
+/// Two candidates that are slices of one buffer: prefixes (same start address) or suffixes (same
+/// end).  Recorded with the buffer and the offsets so that the replay shares memory the same way.
+fn check_alias(run: &Run, t: &mut Tally, ps: &str, p: &Pattern, buf: &str, i: usize, j: usize, prefix: bool) {
+    let before = t.violations.len();
+    if prefix {
+        check_pair(run, t, ps, p, &buf[..i], &buf[..j]);
+    } else {
+        check_pair(run, t, ps, p, &buf[i..], &buf[j..]);
+    }
+    for v in t.violations[before..].iter_mut() {
+        v.kind = "alias".to_string();
+        v.case = json!({"pattern": ps, "buffer": buf, "i": i, "j": j, "slices": if prefix { "prefixes" } else { "suffixes" }, "pkg1": v.case["pkg1"], "pkg2": v.case["pkg2"]});
+    }
+}
+
 /// Two calls around an in-place rewrite of one buffer: content `n1`, a call, content `n2`
 /// (same length, same allocation), another call.  shape bit 0 / bit 1 = the buffer is the
 /// first argument in the first / second call.  Both results are judged on the contents.
@@ -270,6 +285,13 @@ fn replay(run: &Run, doc: &Value) -> Option<Violation> {
     let p = Pattern::new(ps).ok()?;
     let mut t = Tally::new();
     match doc["kind"].as_str() {
+        Some("alias") => {
+            let buf = c["buffer"].as_str().unwrap_or("").to_string();
+            let (i, j) = (c["i"].as_u64().unwrap_or(0) as usize, c["j"].as_u64().unwrap_or(0) as usize);
+            if i <= buf.len() && j <= buf.len() && buf.is_char_boundary(i) && buf.is_char_boundary(j) {
+                check_alias(run, &mut t, ps, &p, &buf, i, j, c["slices"] == "prefixes");
+            }
+        }
         Some("reuse") => {
             let mut buf = String::with_capacity(64);
             check_reuse(run, &mut t, ps, &p, c["fixed"].as_str().unwrap_or(""), c["first_content"].as_str().unwrap_or(""), c["second_content"].as_str().unwrap_or(""), c["shape"].as_u64().unwrap_or(0) as u8, &mut buf);
@@ -302,6 +324,7 @@ fn main() {
          routes must give the model winner. Non-trivial = at least two distinct matching candidates.",
     );
     run.assume("reference order: dewey model + byte-wise smaller name on ties (mc/core/src/model/dewey.rs); pattern membership by the composed pattern model");
+    run.assume("digit runs of more than 18 digits are compared as their numeric value only in pairs where at most one run exceeds i64::MAX (exact arithmetic and saturation at any width >= 64 bits agree there); wrapping is taken to be a violation of 'a digit run = its numeric value'");
     let n = run.pick(3, 4);
     run.bound(format!("all {} lists of <= {} candidates x all reduction trees, x {} patterns; all {} ordered pairs per pattern", seqs::count(POOL.len(), n), n, PATTERNS.len(), POOL.len() * POOL.len()));
 
@@ -412,8 +435,8 @@ fn main() {
                     for j in 0..=buf.len() {
                         t.states += 1;
                         t.transitions += 2;
-                        check_pair(&run, &mut t, ps, p, &buf[..i], &buf[..j]);
-                        check_pair(&run, &mut t, ps, p, &buf[i..], &buf[j..]);
+                        check_alias(&run, &mut t, ps, p, &buf, i, j, true);
+                        check_alias(&run, &mut t, ps, p, &buf, i, j, false);
                     }
                 }
             }
